@@ -36,7 +36,10 @@ CONSTANTS Queries,        \* set of query descriptors (see BaseQ)
 BaseQ == [kind |-> "select", items |-> <<>>, hasexc |-> FALSE, exc |-> <<>>,
           where |-> <<"true">>, order |-> <<>>, desc |-> FALSE, distinct |-> "none",
           hastop |-> FALSE, top |-> 0, join |-> "none", jkeys |-> <<>>,
-          hasgroup |-> FALSE, group |-> <<>>, assign |-> <<>>]
+          hasgroup |-> FALSE, group |-> <<>>, assign |-> <<>>,
+          mistake |-> "",      \* a mistake in the query TEXT the renderer realises: "where_assign" (= in WHERE), "two_selects", "bad_limit",
+                               \* "unknown_except_field", "unknown_update_field", "update_not_first"  -> parsing error (C14)
+          iofault |-> ""]      \* inconsistent input: "hdr_len" (column-name list longer than the records), "join_hdr_missing" -> IO-handling error
 
 VARIABLES q, A, B, hasHdr, breakAt,        \* the case (setup)
           pc,
@@ -318,7 +321,9 @@ HeaderRef ==
 (* mistakes detectable from the query alone (parsing errors, before any record is written) *)
 
 \* checked before the join table is read ...
+IOFault == (q.iofault = "hdr_len" /\ A # <<>> /\ hasHdr) \/ (q.iofault = "join_hdr_missing" /\ hasHdr /\ q.join # "none")
 PreJoinParseError ==
+    \/ q.mistake # ""
     \/ (q.kind = "update" /\ Sorted(q))
     \/ (q.hasgroup /\ (Sorted(q) \/ q.kind = "update"))
 \* ... and after it (shallow_parse_input_query builds the join map in between)
@@ -337,6 +342,8 @@ AllUnits == Flatten([i \in 1..Len(A) |-> UnitsOf(i)])
 NoErr   == <<>>
 ErrOf(cls, n, f) == << [cls |-> cls, nr |-> n, fld |-> f] >>
 
+\* a parsing-class failure detected while evaluating (two UNNESTs) names no record
+ErrAt(o) == ErrOf(o.cls, IF o.cls = "parsing" THEN 0 ELSE o.i, o.fld)
 UnitErrCls(u) == IF u.kind = "pair" \/ u.kind = "nopartner" THEN "" ELSE "runtime"
 
 \* SELECT, not aggregated
@@ -376,25 +383,40 @@ AggRef(passing) ==
         bad  == \E k \in 1..Len(rows) : \E c \in 1..ncol : rows[k][c] = Err \/ rows[k][c] = <<"NONCONST">>
     IN [rows |-> rows, bad |-> bad]
 
+\* aggregate queries: a passing unit fails if a numeric aggregate meets a non-numeric value, or a non-aggregate
+\* column differs from the first value of its group (the accumulators check while accumulating)
+AggUnitBad(outs, k) ==
+    /\ outs[k].pass
+    /\ \E c \in 1..Len(q.items) :
+         LET it == CoreItem(q.items[c]) IN
+         IF it[1] = "agg" THEN NumericAgg(it[2]) /\ IsErr(ToNum(outs[k].folded[c]))
+         ELSE \E m \in 1..(k - 1) : outs[m].pass /\ outs[m].gkey = outs[k].gkey /\ ~VEq(outs[m].folded[c], outs[k].folded[c])
+                                    /\ (\A n \in 1..(m - 1) : ~(outs[n].pass /\ outs[n].gkey = outs[k].gkey))
+
 RefSelect ==
     LET outs == SelOuts
-        fe   == FirstErrIdx(outs)
-        upto == IF fe = 0 THEN Len(outs) ELSE fe - 1
+        fe0  == FirstErrIdx(outs)
+        up0  == IF fe0 = 0 THEN Len(outs) ELSE fe0 - 1
+        \* first passing unit: aggregate columns are discovered there (parse-class mistakes surface at that point)
+        fp   == LET ps == {k \in 1..up0 : outs[k].pass} IN IF ps = {} THEN 0 ELSE CHOOSE k \in ps : \A m \in ps : k <= m
+        ab   == LET bs == {k \in 1..up0 : AggUnitBad(outs, k)} IN IF bs = {} THEN 0 ELSE CHOOSE k \in bs : \A m \in bs : k <= m
+        fe   == fe0
+        upto == up0
         es   == EntriesOf(outs, upto)
     IN IF Aggregated(q)
-       THEN LET passing == SelectSeq(SubSeq(outs, 1, upto), LAMBDA o : o.pass) IN
-            IF passing # <<>> /\ AggParseError THEN [out |-> <<>>, err |-> ErrOf("parsing", 0, 0), stopunit |-> 0]
-            ELSE IF fe # 0 /\ ~(passing # <<>> /\ AggParseError) THEN [out |-> <<>>, err |-> ErrOf(outs[fe].cls, outs[fe].i, outs[fe].fld), stopunit |-> 0]
-            ELSE LET ar == AggRef(passing) IN
-                 IF ar.bad THEN [out |-> <<>>, err |-> ErrOf("runtime", -1, 0), stopunit |-> 0]      \* record number not constrained (R3)
+       THEN IF fp # 0 /\ AggParseError THEN [out |-> <<>>, err |-> ErrOf("parsing", 0, 0), stopunit |-> 0]
+            ELSE IF ab # 0 THEN [out |-> <<>>, err |-> ErrOf("runtime", outs[ab].i, 0), stopunit |-> 0]
+            ELSE IF fe # 0 THEN [out |-> <<>>, err |-> ErrAt(outs[fe]), stopunit |-> 0]
+            ELSE LET ar == AggRef(SelectSeq(outs, LAMBDA o : o.pass)) IN
+                 IF ar.bad THEN [out |-> <<>>, err |-> ErrOf("runtime", -1, 0), stopunit |-> 0]      \* cannot happen (AggUnitBad covers it); kept as a guard
                  ELSE [out |-> IF q.hastop THEN Take(q.top, ar.rows) ELSE ar.rows, err |-> NoErr, stopunit |-> 0]
        ELSE IF Streaming(q)
        THEN LET reach == Reaching(es) IN
             IF Len(reach) > q.top
             THEN [out |-> RowsOf(Take(q.top, reach)), err |-> NoErr, stopunit |-> reach[q.top + 1].unit]
-            ELSE IF fe # 0 THEN [out |-> <<>>, err |-> ErrOf(outs[fe].cls, outs[fe].i, outs[fe].fld), stopunit |-> 0]
+            ELSE IF fe # 0 THEN [out |-> <<>>, err |-> ErrAt(outs[fe]), stopunit |-> 0]
             ELSE [out |-> RowsOf(reach), err |-> NoErr, stopunit |-> 0]
-       ELSE IF fe # 0 THEN [out |-> <<>>, err |-> ErrOf(outs[fe].cls, outs[fe].i, outs[fe].fld), stopunit |-> 0]
+       ELSE IF fe # 0 THEN [out |-> <<>>, err |-> ErrAt(outs[fe]), stopunit |-> 0]
        ELSE LET ordered == IF Sorted(q) THEN Ordered(es, q.desc) ELSE es
                 dist    == Dist(q.distinct, RowsOf(ordered))
             IN [out |-> IF q.hastop THEN Take(q.top, dist) ELSE dist, err |-> NoErr, stopunit |-> 0]
@@ -410,7 +432,8 @@ UpdFold(k, nuv, rows) ==
               ELSE UpdFold(k + 1, IF o.upd THEN nuv + 1 ELSE nuv, Append(rows, o.row))
 
 Ref ==
-    IF PreJoinParseError THEN [out |-> <<>>, err |-> ErrOf("parsing", 0, 0), stopunit |-> 0]
+    IF IOFault THEN [out |-> <<>>, err |-> ErrOf("io", 0, 0), stopunit |-> 0]
+    ELSE IF PreJoinParseError THEN [out |-> <<>>, err |-> ErrOf("parsing", 0, 0), stopunit |-> 0]
     ELSE IF q.join # "none" /\ FirstBadB # 0 THEN [out |-> <<>>, err |-> ErrOf("runtime", FirstBadB, -BadKeyFieldB(FirstBadB)), stopunit |-> 0]
     ELSE IF PostJoinParseError THEN [out |-> <<>>, err |-> ErrOf("parsing", 0, 0), stopunit |-> 0]
     ELSE IF q.kind = "update" THEN LET r == UpdFold(1, 0, <<>>) IN [out |-> r.out, err |-> r.err, stopunit |-> 0]
@@ -463,8 +486,8 @@ Fail(cls, n, f) == /\ err' = ErrOf(cls, n, f) /\ pc' = "error"
 
 \* ---- shallow parse: static checks; then the join map is built, then the header is set ----
 Parse == /\ pc = "parse"
-         /\ IF PreJoinParseError
-            THEN /\ Fail("parsing", 0, 0) /\ UNCHANGED <<bi, maxlenB, nr, nu, pulled, matches, cands, candkey, uset, stop, sortbuf, seen, counts, nw, aggst, aggcols, aggkeys, fphase, fq, out, hdr, hdrset, leafcalls, mon>>
+         /\ IF IOFault \/ PreJoinParseError
+            THEN /\ Fail(IF IOFault THEN "io" ELSE "parsing", 0, 0) /\ UNCHANGED <<bi, maxlenB, nr, nu, pulled, matches, cands, candkey, uset, stop, sortbuf, seen, counts, nw, aggst, aggcols, aggkeys, fphase, fq, out, hdr, hdrset, leafcalls, mon>>
             ELSE /\ pc' = IF q.join = "none" THEN "header" ELSE "buildB"
                  /\ aggst' = IF q.hasgroup THEN 1 ELSE 0
                  /\ UNCHANGED <<bi, maxlenB, nr, nu, pulled, matches, cands, candkey, uset, stop, sortbuf, seen, counts, nw, aggcols, aggkeys, fphase, fq, out, hdr, hdrset, leafcalls, mon, err>>
@@ -584,7 +607,7 @@ Match ==
                           nonconst == \E c \in 1..Len(cols1) : cols1[c].f = "CONST" /\
                                         LET k == CHOOSE k \in 1..Len(cols1[c].keys) : cols1[c].keys[k] = p.gkey IN ~VEq(cols1[c].vals[k][1], p.folded[c])
                       IN IF badnum \/ nonconst
-                         THEN /\ Fail("runtime", -1, 0) /\ UNCHANGED <<matches, cands, candkey, uset, aggst, aggcols, aggkeys>>
+                         THEN /\ Fail("runtime", nr, 0) /\ UNCHANGED <<matches, cands, candkey, uset, aggst, aggcols, aggkeys>>
                          ELSE /\ aggst' = 2 /\ aggcols' = cols1
                               /\ aggkeys' = IF Member(aggkeys, p.gkey) THEN aggkeys ELSE Append(aggkeys, p.gkey)
                               /\ matches' = Tail(matches)
@@ -710,7 +733,7 @@ CaseOf == [q |-> q, A |-> A, B |-> B, hasHdr |-> hasHdr, breakAt |-> breakAt,
            expect |-> [out |-> IF Ref.err = NoErr THEN RefOut ELSE <<>>, err |-> Ref.err,
                        hashdr |-> (Ref.err = NoErr /\ HeaderRef.has), hdr |-> HeaderRef.names,
                        pulllimit |-> PullLimit, streaming |-> Streaming(q),
-                       raggedA |-> WarnRagged(A), fullscan |-> (pc = "done" /\ pulled = Len(A) + 1)]]
+                       raggedA |-> WarnRagged(A), raggedB |-> WarnRagged(B), fullscan |-> (pc = "done" /\ pulled = Len(A) + 1)]]
 
 Emit == (Terminal /\ EmitCases) => PrintT(ToJson(CaseOf))
 =============================================================================
